@@ -307,6 +307,7 @@ type worldB struct {
 	restarts int
 	crashes  int
 	crashing bool
+	poisoned bool // O's crash restart found persisted candidate records older than its stable account state (see layer A)
 	blocks   int // block events so far
 	o1       *core.Outcome
 	full     []string
@@ -663,6 +664,9 @@ func (w *worldB) checkLists(note string, prevF map[string]candStB, how func(i in
 			if strings.Contains(h, "re-rank-from-index") {
 				fp += "/" + indexStateB(o)
 			}
+			if w.poisoned && n == w.o {
+				fp = poisonedClass
+			}
 			if !reported[fp] { // the twin node failing in the same way is not reported a second time
 				w.viol(fp, line)
 				reported[fp] = true
@@ -813,6 +817,20 @@ func (w *worldB) block(spec string, prefix bool, crashO bool) (ok bool) {
 			}
 			w.restarts-- // counted as a crash, not as a clean restart event
 			w.crashes++
+			if pers, perr := w.o.DB.Context.GetCandidates(); perr == nil {
+				have := map[string]int64{}
+				for _, e := range toEntriesB(pers) {
+					have[e.name] = e.votes
+				}
+				for _, e := range observeB(w.o, "O", b.Hash()).reg {
+					if v, ok := have[e.name]; !ok || v != e.votes {
+						if !w.poisoned {
+							count("crash_leaves_stale_persisted_candidate_records_B", 1)
+						}
+						w.poisoned = true
+					}
+				}
+			}
 			w.lastKind = "crash-in-" + kind + "[" + txKinds(spec) + "]"
 			if w.o.BC.StableBlock().Hash() != b.Hash() {
 				// the pointer had not moved: accounts ahead of the pointer, C08's subject (see layer A)
